@@ -9,8 +9,8 @@ stoppers (`stop()` called by `Server.Close` or `handleConnection`; the processor
 `stop()` from its deferred function and is the fourth stopper) and any number of external
 writers (other connections' processors delivering a packet into this connection's outgoing
 ring through `writeMessage`, under `wmu`).  Everything outside the connection is the
-environment: the peer (closes, stops/resumes reading, goes silent until the read deadline
-fires), the connection a delivery of the processor is addressed to (`extBlocked`: that
+environment: the peer (closes, HALF-closes — shuts down its sending direction only —, stops/resumes
+reading, goes silent until the read deadline fires), the connection a delivery of the processor is addressed to (`extBlocked`: that
 connection is still open, has stopped reading and its outgoing ring is full), `Server.Close`.
 
 The two rings are abstracted to (bytes buffered, done flag) — `RingA` — with one atomic step per
@@ -33,7 +33,9 @@ F8: no read pending, no deadline armed).
 When `ReadFrom` ends with an error (it always does: keep-alive deadline, reset, EOF, ring closed)
 the receiver closes the socket before it returns (repair b77088f, finding F7): a sender blocked in
 `conn.Write` fails, its deferred `Close` closes the outgoing ring, and a processor parked in
-`WriteWait` on the connection's OWN outgoing ring comes back with end-of-stream.
+`WriteWait` on the connection's OWN outgoing ring comes back with end-of-stream.  That close is also what
+ends a HALF-closed connection (`Sock.peerShut`: reads return end-of-stream, writes still block while the peer
+does not read): without it the sender would stay in its write (`C16_halfclose_needs_receiver_close`).
 
 Four switches reproduce the behaviour before a repair for the closed counterexamples of
 `Properties/C16.lean`: `Cfg.d2` (a ring wait loop woken by `Close` returns end-of-stream with its
@@ -138,9 +140,21 @@ inductive Tid where
   | w (i : Nat)               -- i-th external writer (another connection's processor)
 deriving DecidableEq, Repr
 
+/-- `peerShut` = HALF-closed: the peer has shut down its sending direction only (TCP FIN / `CloseWrite`) and
+neither reads nor closes.  The broker's socket READ returns end-of-stream (as with `peerClosed`); its socket
+WRITES behave as on an open socket: they succeed when the peer reads and block while it does not.  Only the
+broker's own `conn.Close()` (the receiver's, on its read failure - b77088f -, or `stop()`'s) or the peer going
+away completely (`peerClose`) makes a blocked write fail. -/
 inductive Sock where
-  | open | peerClosed | closed
+  | open | peerClosed | closed | peerShut
 deriving DecidableEq, Repr
+
+/-- a socket WRITE fails (it neither succeeds nor blocks): the connection is gone in both directions.  On a
+half-closed socket (`peerShut`) a write behaves as on an open one. -/
+def Sock.wfail : Sock → Bool
+  | .peerClosed => true
+  | .closed => true
+  | _ => false
 
 inductive Eff where
   | unsub | will | sessDel
@@ -320,7 +334,7 @@ def sstep (c : Cfg) (sh : Sh) : SPc → Option (Sh × SPc)
     else if 0 < sh.outR.buf then some (sh, .write (min sh.outR.buf c.wblock))
     else none
   | .write m =>
-    if sh.sock ≠ .open then some (sh, .close)
+    if sh.sock.wfail then some (sh, .close)          -- `peerShut` (half-closed) is writable: blocks or succeeds
     else if sh.peerReads then some (sh, .commit m)
     else none
   | .commit m => (sh.outR.commitC c m).map fun r => ({ sh with outR := r }, .peek)
@@ -392,7 +406,8 @@ def wstep (c : Cfg) (sh : Sh) (me : Tid) (w : WTh) : Option (Sh × WTh) :=
 
 /-- environment events -/
 inductive Env where
-  | peerClose                 -- the peer closes (or the network drops) the connection
+  | peerClose                 -- the peer closes (or the network drops) the connection (also after a half-close)
+  | peerShut                  -- the peer shuts down its sending direction only (FIN / CloseWrite): half-closed
   | kaExpire                  -- the read deadline of the pending socket read fires
   | peerReads (b : Bool)      -- the peer stops / resumes reading
   | extBlock (b : Bool)       -- the connection the processor delivers to becomes blocked / ends or reads again
@@ -406,7 +421,9 @@ inductive Label where
 deriving DecidableEq, Repr
 
 def estep (c : Cfg) (s : St) : Env → Option St
-  | .peerClose => if s.sh.sock = .open then some { s with sh := { s.sh with sock := .peerClosed } } else none
+  | .peerClose =>
+    if s.sh.sock = .open ∨ s.sh.sock = .peerShut then some { s with sh := { s.sh with sock := .peerClosed } } else none
+  | .peerShut => if s.sh.sock = .open then some { s with sh := { s.sh with sock := .peerShut } } else none
   | .kaExpire =>
     if s.recv = .read ∧ s.sh.sock = .open then some { s with sh := { s.sh with timeout := true } } else none
   | .peerReads b => some { s with sh := { s.sh with peerReads := b } }
@@ -516,7 +533,8 @@ def PPc.inOwnWrite : PPc → Bool
   | .ownCommit _ _ => true
   | _ => false
 
-/-- the connection has ended: socket closed by either side, keep-alive expired, `stop()` called,
+/-- the connection has ended: socket closed by either side or HALF-closed by the peer (`peerShut`: the
+broker has read, or will read, end-of-stream), keep-alive expired, `stop()` called,
 or receiver or processor has left its loop (error / end-of-stream / DISCONNECT observed).  (The
 sender leaves its loop on a write error — socket closed — or when the outgoing ring is closed by
 `stop()` or by the first loop of `Server.Close`; the latter alone is not an end: `stop()` follows.) -/
@@ -529,12 +547,15 @@ def HeldByThird (s : St) : Bool :=
   s.sh.extBlocked && (match s.proc with | .acts (.foreign :: _) => true | _ => false)
 
 /-- the same with the connection in both roles: the processor is inside a write to its own
-outgoing ring while its own peer is still connected and has stopped reading.  NOT an exemption
-(any more): since b77088f every end of the connection the receiver can see closes the socket, so
-in a state in which nothing can run this holds only while the connection has NOT ended
-(`C16_self_held_not_ended`); with the old receiver it was a wedge (`C16_old_receiver_wedges`). -/
+outgoing ring while its own peer is still connected — the socket is writable: open or HALF-closed — and has
+stopped reading.  NOT an exemption (any more): since b77088f every end of the connection the receiver can see
+closes the socket, so in a state in which nothing can run this holds only while the connection has NOT ended
+— or the peer has half-closed and the receiver, waiting for room in the completely full incoming ring, does
+not read the end-of-stream (finding F8 in its half-closed form) — (`C16_self_held_not_ended`,
+`C16_halfclose_unnoticed`); with the old receiver it was a wedge (`C16_old_receiver_wedges`,
+`C16_halfclose_needs_receiver_close`). -/
 def HeldBySelf (s : St) : Bool :=
-  s.sh.sock == .open && !s.sh.peerReads && s.proc.inOwnWrite
+  !s.sh.sock.wfail && !s.sh.peerReads && s.proc.inOwnWrite
 
 /-- the property's exemption, all of it: a delivery from this connection into ANOTHER connection
 that is still open and has stopped reading -/
